@@ -252,7 +252,7 @@ func (e *Engine) isError(it Iface) bool {
 
 func (e *Engine) errorsAs(err Iface, tgt Iface) Value {
 	if tgt.T == nil {
-		panic(goPanic{"errors: target cannot be nil"})
+		panic(goPanic{msg: "errors: target cannot be nil"})
 	}
 	want := tgt.T.(*types.Pointer).Elem()
 	wantIface, isIface := want.Underlying().(*types.Interface)
@@ -698,7 +698,7 @@ func init() {
 			return e.liftPure(a, func(c []interface{}) []interface{} {
 				n := int(c[1].(int64))
 				if n < 0 {
-					panic(goPanic{"strings: negative Repeat count"})
+					panic(goPanic{msg: "strings: negative Repeat count"})
 				}
 				return []interface{}{strings.Repeat(c[0].(string), n)}
 			})
